@@ -77,6 +77,10 @@ def corpus():
     # retention: late sharer gets the stored exception
     out.append(G.mk(dict(c1, rt=20), [['call', 0, None], ['adv', 10], ['raise', 0, 3], ['adv', 19],
                                       ['call', 5, 0], ['adv', 1], ['call', 0, None], ['adv', 10], ['fin', 1]]))
+    # the explicit EMPTY key '' (falsy): one request for all three args, answered with what is yielded for ''
+    E = D.EMPTY_KEY
+    out.append(G.mk(c1, [['burst', [[1, E], [2, E], [3, E], [2, None]]], ['adv', 10], ['yield', 0, E, 'v', 9],
+                         ['yield', 0, 2, 'v', 4], ['fin', 0]]))
     return out
 
 
@@ -153,19 +157,21 @@ LEVEL_TEXT = ('AsyncBackgroundBatcher is modelled as an executable macro-step st
     'inside Coq; the monitor ok_C04 judges the observed trace independently of the model (monitor_basic_complete / '
     'monitor_basic_sound: the state-free conjuncts — no TaskDied, completion clock, no double completion, non-empty '
     'duplicate-free batches not in the future — accept every model trace for all event lists and imply these facts; '
-    'monitor_sound_partial for the full monitor). monitor_complete_nochain: the FULL monitor ok_C04 (expected late '
+    'monitor_sound_partial for the full monitor). monitor_complete: the FULL monitor ok_C04 (expected late '
     'answers, immediate answers, Cancelled only by Cancel, final no-hang rule) accepts every model trace with the '
-    "model's waiting list, for all configurations with batch_timeout > 0 and all event lists without Chain events "
-    '(simulation model state <-> monitor state, Case_Batcher_C04.v); monitor_sound_late_partial / monitor_sound_end: '
-    'model-free soundness — in an accepted trace every completion of an already waiting caller is justified by the '
+    "model's waiting list, for all configurations with batch_timeout > 0 and ALL event lists, Chain events (tasks "
+    'calling again in the continuation of their answer) included (simulation model state <-> monitor state with '
+    'every step in two phases resolve / register, Case_Batcher_Full.v; monitor_complete_nochain is the earlier '
+    'Chain-free version); monitor_sound_late_partial / monitor_sound_imm / monitor_sound_end: model-free soundness '
+    '— in an accepted trace every completion of an already waiting caller is justified by the '
     "script (Cancel of that caller, or a batch-function event of an observed batch that still owes the caller's key, "
-    'with exactly the outcome that event produces for that key), and nobody waits once all observed batches ended and '
+    'with exactly the outcome that event produces for that key), every call answered in its own step carries the '
+    'latest outcome the script produced for its key, and nobody waits once all observed batches ended and '
     'batch_timeout elapsed.')
 LEVEL_NOTE = ('trusted: Coq kernel + vm_compute; asyncio primitives (Queue, wait_for, FIFO Semaphore, shield, Future '
     'done-callbacks, call_later, task wake-up order) are modelled in Batcher.v and validated only by the '
     'correspondence runs; harness/vloop.py, harness/batcher_drv.py, coq/theories/Case_Batcher.v (agree + monitors).  '
     'The state-free conjuncts of the monitors (ok_basic) are proved complete and sound; the full monitors ok_C04 / '
-    'ok_C10 / ok_C11 are proved complete on Chain-free event lists (monitor_complete_nochain) and partially sound '
-    'model-free (monitor_sound_*); for scripts with Chain events the tie of the state-dependent conjuncts is agree '
-    '(model trace = observed trace) on every case')
+    'ok_C10 / ok_C11 are proved complete on ALL event lists, Chain events included (monitor_complete; ok_C04 / '
+    'ok_C10 for batch_timeout > 0), and partially sound model-free (monitor_sound_*)')
 TECHNIQUE = 'Coq proof (inductive invariant over a macro-step model) + differential correspondence evaluated by vm_compute'
